@@ -8,10 +8,10 @@ _pe = {}
 
 
 def pe(facts, fn):
-    k = (id(facts), fn.path, fn.crate)
+    k = (id(facts), id(fn))
     if k not in _pe:
-        _pe[k] = PathEnum(facts, fn)
-    return _pe[k]
+        _pe[k] = (fn, PathEnum(facts, fn))     # the Fn is kept alive so that its id stays unique
+    return _pe[k][1]
 
 
 def sym(facts, fn):
@@ -110,7 +110,7 @@ _ope = {}
 def op_pe(facts, fn):
     """PathEnum driven by the operator interpreter (input protocol, summaries, constructor state)"""
     from .opsum import automaton
-    k = (id(facts), fn.path)
+    k = (id(facts), id(fn))
     if k not in _ope:
         a = automaton(facts, fn)
         from .opsum import OpInterp, se_summaries
@@ -118,8 +118,8 @@ def op_pe(facts, fn):
         p = PathEnum(facts, fn, interp=it)
         p.revisit = True
         p.init = {k_: v for k_, v in a.init.items() if not k_.startswith('["$')}
-        _ope[k] = p
-    return _ope[k]
+        _ope[k] = (fn, p)
+    return _ope[k][1]
 
 
 def op_cond_of_block(facts, fn, b):
